@@ -388,7 +388,7 @@ def EP.ofString : String → Option EP
 def krigeCore (returnVar onlyMean extDrift process save0 save1 : Bool) (n0 n1 : Name) : List Op :=
   [.fresh V.f] ++ opt returnVar [.fresh V.kv]
   ++ (if onlyMean && !extDrift then [.setItem V.f]
-      else opt extDrift [.asarray V.ed V.extDrift, .view V.ed V.ed true, .asarray V.ed V.ed, .reshape V.ed V.ed]
+      else opt extDrift [.copy V.ed V.extDrift, .view V.ed V.ed true, .asarray V.ed V.ed, .reshape V.ed V.ed]
         ++ [.fresh V.res, .setItem V.res, .setItem V.res, .fresh V.tmp, .setItem V.f] ++ opt returnVar [.setItem V.kv])
   ++ [.reshape V.f V.f] ++ postField V.f n0 process save0
   ++ opt returnVar ([.fresh V.kv, .reshape V.kv V.kv] ++ postField V.kv n1 false save1)
@@ -478,8 +478,8 @@ def pKrigeSetCond (fitNorm fitVario condErrArr extDrift : Bool) : List Op :=
   ++ opt fitNorm [.fresh V.tmp, .fresh V.isData, .asarray V.tmp V.tmp, .fresh V.tmp]
   ++ opt fitVario ([.fresh V.f] ++ normCall V.f ++ [.augName V.f, .view V.field V.f true, .view V.pos V.x true]
       ++ pVarioEstimate false false false false false false false false false)
-  ++ opt condErrArr [.asarray V.w V.condErr, .reshape V.w V.w, .store N.condErr V.w]
-  ++ (if extDrift then [.asarray V.ed V.extDrift, .view V.ed V.ed true, .store N.condExt V.ed]
+  ++ opt condErrArr [.copy V.w V.condErr, .reshape V.w V.w, .store N.condErr V.w]      -- np.array(...): copies (fix AL1)
+  ++ (if extDrift then [.copy V.ed V.extDrift, .view V.ed V.ed true, .store N.condExt V.ed]
       else [.fresh V.ed, .store N.condExt V.ed])
   ++ [.fresh V.p, .store N.krigePos V.p, .fresh V.res, .setItem V.res, .setItem V.res, .setItem V.res,
       .fresh V.tmp, .store N.krigeMat V.tmp]
